@@ -562,6 +562,9 @@ def oneofguard(repo, modules=ONEOF_MODULES):
                         for t in st.targets:
                             if isinstance(t, ast.Name):
                                 known = {(b, mm) for b, mm in known if b.split(".")[0] != t.id}
+                                # `x = ir_util.get_base_type(...)`: the array layers are stripped, what is left is atomic
+                                if isinstance(st.value, ast.Call) and (call_name(st.value) or "").split(".")[-1] == "get_base_type":
+                                    known.add((t.id, "atomic_type"))
                 return known
             scan(f.node.body, set())
     res.analysed = list(modules)
